@@ -25,23 +25,25 @@ FUNCTIONS = [
 ]
 # NULL spelling -> (equal spellings, near-but-different spellings)
 NULLS = {
-    "-999.25": (["-999.25", "-999.2500", "-9.9925E2"], ["-999.26", "999.25", "-999.2"]),
+    "-999.25": (["-999.25", "-999.2500", "-9.9925E2"], ["-999.26", "999.25", "-999.2", "-999.2501", "-999.24999"]),
     "-999.2500": (["-999.25", "-0999.25"], ["-999.251"]),
     "-9.9925E2": (["-999.25", "-9.9925e+02"], ["-9.9925E3"]),
     "999.25": (["999.25", "+999.25", "9.9925E2"], ["-999.25"]),
     "-999": (["-999", "-999.0", "-9.99E2"], ["-999.5", "999"]),
-    "0": (["0", "0.0", "-0", "0E0"], ["0.001"]),
+    "0": (["0", "0.0", "-0", "0E0"], ["0.001", "0.0001"]),
+    "-99999.25": (["-99999.25", "-9.999925E4"], ["-99999.2", "-99999.3"]),
+    "1234567.5": (["1234567.5", "1.2345675E6"], ["1234567", "1234570"]),
     "100000": (["1E5", "100000.0"], ["1E6"]),
 }
 BOUNDS = {
-    "quick": {"nulls": ["-999.25", "-9.9925E2", "999.25", "0"], "pad_cap": 1, "task_budget_s": 900},
+    "quick": {"nulls": ["-999.25", "-9.9925E2", "999.25", "0", "-99999.25"], "pad_cap": 1, "task_budget_s": 900},
     "thorough": {"nulls": list(NULLS), "pad_cap": 2, "task_budget_s": 3000},
 }
 ASSUMPTIONS = [
     "numerals are concrete and range over the listed spellings (equal to NULL in other spellings, near NULL, unrelated): float equality is numpy's C code and is executed, not encoded; the symbolic part is limited to finite choice variables (NULL spelling x probe position x probe spelling x policy x engine) whose case analysis the solver drives - this is the weakest use of the technique among the checks and is stated as such",
-    "file: 3 rows x 4 columns (index, two numeric curves, one text column), concrete layout (layout invariance is C02/C09)",
+    "file: 3 rows x 3 or 4 columns (index, two numeric curves, optionally one text column), concrete layout (layout invariance is C02/C09); near-NULL samples differ from NULL by more than the precision of the default write format (a sample that the format rounds onto NULL is outside the claim)",
 ]
-WITNESS_TARGETS = ["probe-equals-null-in-other-spelling", "probe-in-index-column", "probe-in-text-column", "policy-none", "round-trip-compared"]
+WITNESS_TARGETS = ["probe-equals-null-in-other-spelling", "probe-in-index-column", "probe-in-text-column", "policy-none", "round-trip-compared", "all-numeric-file-NaN-written-as-NULL"]
 EXCLUSIONS = {}
 ROWS, COLS = 3, 4
 BASE_CELLS = [["10", "1.5", "2.5", "abc"], ["20", "3.5", "4.5", "def"], ["30", "5.5", "6.5", "ghi"]]
@@ -52,24 +54,26 @@ def tasks(tier):
     return [{"name": "null=%s/%s" % (n, e), "params": {"null": n, "engine": e, "pcap": b["pad_cap"]}} for n in b["nulls"] for e in ("numpy", "normal")]
 
 
-def cells_for(null, pos, spell):
+def cells_for(null, pos, spell, with_text=True):
     eq, near = NULLS[null]
     choices = eq + near + ["7.75"]
     tok = choices[spell % len(choices)]
     cells = [list(r) for r in BASE_CELLS]
     i, j = divmod(pos, COLS)
     cells[i][j] = tok
+    if not with_text:
+        cells = [r[:3] for r in cells]  # all-numeric file: the writer's NaN -> NULL path is only taken then
     return cells, (i, j), tok, (spell % len(choices)) < len(eq)
 
 
-def header(null):
-    return ["~Version", "VERS. 2.0 : v", "WRAP. NO : w", "~Well", "STRT.M 10 : s", "STOP.M 30 : e", "STEP.M 10 : i", "NULL. %s : n" % null, "~Curve", "DEPT.M : d", "A.U : a", "B.U : b", "T. : t", "~A"]
+def header(null, with_text=True):
+    return ["~Version", "VERS. 2.0 : v", "WRAP. NO : w", "~Well", "STRT.M 10 : s", "STOP.M 30 : e", "STEP.M 10 : i", "NULL. %s : n" % null, "~Curve", "DEPT.M : d", "A.U : a", "B.U : b"] + (["T. : t"] if with_text else []) + ["~A"]
 
 
 def expected(null, cells, policy):
     nv = float(null)
     cols = []
-    for j in range(COLS):
+    for j in range(len(cells[0])):
         col = []
         for i in range(ROWS):
             t = cells[i][j]
@@ -112,14 +116,19 @@ def harness(ns, params):
     def run():
         core.OPTS["concretize"] = True
         pos = fresh_int("probe_pos", 0, ROWS * COLS - 1)
-        spell = fresh_int("probe_spelling", 0, 6)
+        spell = fresh_int("probe_spelling", 0, 8)
         pol = fresh_bool("policy_none")
-        cells, (pi, pj), tok, is_eq = cells_for(null, pos.__index__(), spell.__index__())
+        wt = fresh_bool("with_text_column")
+        wt_c = bool(wt)
+        if not wt_c:
+            core.assume(z.And([z.Not(z.eq_i(pos.e, k)) for k in (3, 7, 11)]))
+        cells, (pi, pj), tok, is_eq = cells_for(null, pos.__index__(), spell.__index__(), wt_c)
         policy = "none" if bool(pol) else "strict"
         # symbolic paddings on the probe's line only (the other lines are laid out concretely)
         # (symbolic paddings around the numerals are C02/C09's subject; here they made one path cost 26 s)
         lines = [" " + "  ".join(cells[i]) for i in range(ROWS)]
-        inputs = {"null": null, "engine": engine, "probe_pos": pos, "probe_spelling": spell, "policy_none": pol, "data_lines": lines}
+        inputs = {"null": null, "engine": engine, "probe_pos": pos, "probe_spelling": spell, "policy_none": pol, "with_text_column": wt, "data_lines": lines}
+        core.witness("all-numeric-file-NaN-written-as-NULL", (not wt_c) and is_eq and pj in (1, 2) and policy == "strict")
         cx = core.ctx()
         cx.inputs = inputs
         apply_exclusions(inputs)
@@ -129,7 +138,7 @@ def harness(ns, params):
         core.witness("policy-none", policy == "none")
         las = ns.las.LASFile()
         try:
-            las.read(SymFile(header(null) + lines), engine=engine, null_policy=policy)
+            las.read(SymFile(header(null, wt_c) + lines), engine=engine, null_policy=policy)
         except Exception as e:
             core.oblige("read-does-not-raise", False, info=repr(e)[:200])
             return {"observed": {"raised": type(e).__name__}}
@@ -160,9 +169,10 @@ def replay(i):
     import lasio
 
     null, engine = i["null"], i["engine"]
-    cells, (pi, pj), tok, is_eq = cells_for(null, i["probe_pos"], i["probe_spelling"])
+    wt = i.get("with_text_column", True)
+    cells, (pi, pj), tok, is_eq = cells_for(null, i["probe_pos"], i["probe_spelling"], wt)
     policy = "none" if i["policy_none"] else "strict"
-    text = "\n".join(header(null) + list(i["data_lines"])) + "\n"
+    text = "\n".join(header(null, wt) + list(i["data_lines"])) + "\n"
     try:
         las = lasio.read(text, engine=engine, null_policy=policy)
     except Exception as e:
